@@ -187,7 +187,7 @@ pub fn project(cache: &Cache) -> Proj {
             let nb = bucket_of(&hook, k as *const TKey as usize);
 
             for tok in [k.tok, v.tok] {
-                if reg_state(tok) != Some(TokState::Live) {
+                if !matches!(reg_state(tok), Some(TokState::Live) | Some(TokState::Untracked)) {
                     p.dead_refs.push(tok);
                 }
             }
